@@ -150,9 +150,12 @@ func unsetRequestHeaderValue(r *http.Request, name string) {
 	if name, ok := strings.CutSuffix(name, "*"); ok {
 		// Note that the wildcard does not work for header subfield
 		// ref: https://fiddle.fastly.dev/fiddle/288403c5
+		// Header keys are canonicalized so that the prefix also needs to be canonicalized
+		prefix := textproto.CanonicalMIMEHeaderKey(name)
 		for key := range r.Header {
-			if strings.HasPrefix(key, name) {
+			if strings.HasPrefix(key, prefix) {
 				r.Header.Del(key)
+				r.Unassign(key)
 			}
 		}
 		return
@@ -179,7 +182,7 @@ func unsetRequestHeaderValue(r *http.Request, name string) {
 		return
 	}
 	r.Header.Set(name, t)
-	r.Unassign(name)
+	r.Assign(name)
 }
 
 // removeCookieByName removes a part of Cookie headers that name is matched.
@@ -219,6 +222,7 @@ func removeCookieByName(r *http.Request, cookieName string) {
 		r.Header["Cookie"] = filtered
 	} else {
 		r.Header.Del("Cookie")
+		r.Unassign("Cookie")
 	}
 }
 
@@ -227,9 +231,12 @@ func unsetResponseHeaderValue(r *http.Response, name string) {
 	if name, ok := strings.CutSuffix(name, "*"); ok {
 		// Note that the wildcard does not work for header subfield
 		// ref: https://fiddle.fastly.dev/fiddle/288403c5
+		// Header keys are canonicalized so that the prefix also needs to be canonicalized
+		prefix := textproto.CanonicalMIMEHeaderKey(name)
 		for key := range r.Header {
-			if strings.HasPrefix(key, name) {
+			if strings.HasPrefix(key, prefix) {
 				r.Header.Del(key)
+				r.Unassign(key)
 			}
 		}
 		return
@@ -249,5 +256,5 @@ func unsetResponseHeaderValue(r *http.Response, name string) {
 		return
 	}
 	r.Header.Set(name, t)
-	r.Unassign(name)
+	r.Assign(name)
 }
